@@ -90,6 +90,40 @@ pub fn gen(args: &Args) {
         let same = serde_json::from_str::<std::collections::BTreeMap<Prayer, Result<PrayerTime, ()>>>(&txt).map(|b| b == res).unwrap_or(false);
         w.emit(json!({"ev": "json", "what": "result", "same": same}));
     }
+    // the tool's date defaults (src/main.rs read_params_cli): neither date -> today..today; only a start date ->
+    // that date alone; only an end date -> today..end.  Needs the built binary (--bin); TZ pinned so "today" is known.
+    let bin = args.str("bin", "");
+    if !bin.is_empty() {
+        let dir = args.str("dir", "/tmp");
+        type Table = std::collections::BTreeMap<chrono::NaiveDate, serde_json::Value>;
+        for i in 0..24 {
+            let wd = format!("{}/clidates{}", dir, i);
+            let _ = std::fs::remove_dir_all(&wd);
+            std::fs::create_dir_all(&wd).unwrap();
+            let out = format!("{}/o.json", wd);
+            let today = || chrono::Utc::now().date_naive();
+            let before = today();
+            let mode = ["s", "n", "none"][i % 3];
+            // dates around today (so that an end-date default of "today" and one of "the start date" differ) and far from it
+            let d = if i % 2 == 0 { before + chrono::Duration::days(r.range(-40, 40)) } else { crate::pd::rand_date(&mut r) };
+            let mut argv = vec!["--latitude=10".to_string(), "--longitude=20".to_string(), "--gmt=1".to_string(), format!("--output-file-path={}", out)];
+            match mode {
+                "s" => argv.push(format!("--start-date={}", d)),
+                "n" => argv.push(format!("--end-date={}", d)),
+                _ => {}
+            }
+            let res = std::process::Command::new(&bin).args(&argv).env("TZ", "UTC").current_dir(&wd).output();
+            let after = today();
+            let exit = res.map(|o| o.status.code().unwrap_or(-9)).unwrap_or(-8);
+            let keys: Vec<i64> = std::fs::read_to_string(&out).ok().and_then(|t| serde_json::from_str::<Table>(&t).ok())
+                .map(|t| t.keys().map(|d| dn_of(*d)).collect()).unwrap_or_default();
+            let contiguous = keys.windows(2).all(|p| p[1] == p[0] + 1);
+            w.emit(json!({"ev": "clidates", "mode": mode, "d": dn_of(d), "exit": exit, "count": keys.len(),
+                          "first": keys.first().copied().unwrap_or(0), "last": keys.last().copied().unwrap_or(0), "contiguous": contiguous,
+                          "before": dn_of(before), "after": dn_of(after)}));
+            let _ = std::fs::remove_dir_all(&wd);
+        }
+    }
     let k = w.finish();
     println!("{}", json!({"events": k}));
 }
